@@ -18,7 +18,7 @@ RULE = ("tasks_limit {1,2,3,10,1000} x 1-3 queues sharing the limit x duration p
         "arrivals, failures, n bucket); trivial = runs where the limit was never reached and limit < 1000")
 ASSUMPTIONS = ["Redis and RabbitMQ are wire-level fakes", "virtual time; 'eventually' restated as: all n jobs executed by sum(d)/limit + max(d) + n*delta + last arrival + 12 s, refill of a freed slot within 3 s"]
 EVAL_COUNTER = "entries_judged"
-REQUIRED = ["entries_judged", "runs_saturated", "arrival_slot_free", "arrival_burst", "refills_judged", "thread_runs"]
+REQUIRED = ["entries_judged", "runs_saturated", "arrival_slot_free", "arrival_burst", "refills_judged", "thread_runs", "thread_overrun_runs", "thread_rendezvous_runs"]
 CASE_TIMEOUT = 150
 
 LIMITS = [1, 2, 3, 10, 1000]
@@ -40,6 +40,11 @@ def gen_cases(tier, seed):
     # real threads, real time: synchronous actors through the ThreadPoolExecutor path of asyncify (no virtual loop)
     for l in (1, 2, 3):
         cases.append({"kind": "mem", "type": "threads", "limit": l, "n": 14, "seed": rnd.randrange(10**6)})
+    # a synchronous actor that is still running when its execution timeout fires keeps its slot until it really returns
+    cases.append({"kind": "mem", "type": "threads", "mode": "overrun", "limit": 1, "n": 3, "seed": 1})
+    cases.append({"kind": "mem", "type": "threads", "mode": "overrun", "limit": 2, "n": 5, "seed": 2})
+    # more synchronous invocations at once than any shared thread pool would have threads: tasks_limit is the only cap
+    cases.append({"kind": "mem", "type": "threads", "mode": "rendezvous", "limit": 64, "n": 44, "seed": 3})
     return cases
 
 
@@ -63,20 +68,36 @@ def threads_case(case, out, stats, fps):
         await conn.connect()
         r = Router(defaults=RouterDefaults(converter=BasicConverter))
 
+        mode = case.get("mode", "plain")
+        barrier = threading.Barrier(case["n"]) if mode == "rendezvous" else None
+
         def sync_actor(x: int = 0):
             with lock:
                 st["cur"] += 1
                 st["max"] = max(st["max"], st["cur"])
                 st["threads"].add(threading.get_ident())
-            _t.sleep(0.03)
-            with lock:
-                st["cur"] -= 1
-                st["done"] += 1
+            try:
+                if mode == "overrun" and x == 0:
+                    _t.sleep(1.7)  # still running after its 1 s execution timeout has fired
+                elif mode == "rendezvous":
+                    try:
+                        barrier.wait(timeout=12)  # returns only when ALL n invocations are in progress at once
+                        with lock:
+                            st["met"] = st.get("met", 0) + 1
+                    except threading.BrokenBarrierError:
+                        pass
+                else:
+                    _t.sleep(0.03)
+            finally:
+                with lock:
+                    st["cur"] -= 1
+                    st["done"] += 1
 
         r.actor(name="sync_actor")(sync_actor)
         await conn.message_broker.queue_declare("default")
         for i in range(case["n"]):
-            await Job("sync_actor", id_=f"t{i}", args={"x": i}, store_result=False, _connection=conn).enqueue()
+            await Job("sync_actor", id_=f"t{i}", args={"x": i}, store_result=False, _connection=conn,
+                      **({"timeout": __import__("datetime").timedelta(seconds=1)} if mode == "overrun" else {})).enqueue()
         w = Worker(routers=[r], tasks_limit=case["limit"], messages_limit=case["n"], handle_signals=[], _connection=conn)
         await asyncio.wait_for(w.run(), 60)
         await conn.disconnect()
@@ -90,6 +111,12 @@ def threads_case(case, out, stats, fps):
         out.append(V("over_limit", "mem", f"threads/limit={case['limit']}", f"{st['max']} synchronous actors ran at once in worker threads with tasks_limit={case['limit']}"))
     if st["done"] < min(case["n"], case["n"]):
         out.append(V("stall", "mem", "threads", f"only {st['done']} of {case['n']} sync jobs completed"))
+    if case.get("mode") == "rendezvous":
+        stats["thread_rendezvous_runs"] += 1
+        if st.get("met", 0) < case["n"]:
+            out.append(V("stall", "mem", "threads/rendezvous", f"{case['n']} synchronous actors with tasks_limit={case['limit']} never were in progress together (only {st['max']} at once): free slots, deliverable messages, no start"))
+    if case.get("mode") == "overrun":
+        stats["thread_overrun_runs"] += 1
     if main_thread in st["threads"]:
         out.append(V("harness_or_api_error", "mem", "threads", "sync actor ran on the event-loop thread"))
 
